@@ -8,22 +8,26 @@ RECURSIVE Alternate(_, _)
 Alternate(fr, st) == IF fr = <<>> THEN <<>> ELSE <<On(Head(fr), st)>> \o Alternate(Tail(fr), 1 - st)
 Rep(f, n) == [j \in 1..n |-> f]
 Scenarios == {
-    [name |-> "size_bound",  fs |-> 100, buf |-> 1000, cnt |-> 64, frames |-> <<O>> \o Rep(D(300), 8)],
-    [name |-> "size_uneven", fs |-> 100, buf |-> 1000, cnt |-> 64, frames |-> <<O, D(250), D(0), D(330), D(99), D(1), D(400), D(400)>>],
-    [name |-> "count_bound", fs |-> 100, buf |-> 100000, cnt |-> 8, frames |-> <<O>> \o Rep(D(50), 20)],
-    [name |-> "count_mixed", fs |-> 64, buf |-> 100000, cnt |-> 6, frames |-> <<O, D(200), C, O, D(10), D(10), D(10), D(10)>>],
-    [name |-> "exact_fit",   fs |-> 128, buf |-> 512, cnt |-> 64, frames |-> <<O, D(512), D(1), D(128)>>],
-    [name |-> "one_big",     fs |-> 1000, buf |-> 4096, cnt |-> 8, frames |-> <<O>> \o Rep(D(60000), 2)],
+    [rd |-> 0, name |-> "size_bound",  fs |-> 100, buf |-> 1000, cnt |-> 64, frames |-> <<O>> \o Rep(D(300), 8)],
+    [rd |-> 0, name |-> "size_uneven", fs |-> 100, buf |-> 1000, cnt |-> 64, frames |-> <<O, D(250), D(0), D(330), D(99), D(1), D(400), D(400)>>],
+    [rd |-> 0, name |-> "count_bound", fs |-> 100, buf |-> 100000, cnt |-> 8, frames |-> <<O>> \o Rep(D(50), 20)],
+    [rd |-> 0, name |-> "count_mixed", fs |-> 64, buf |-> 100000, cnt |-> 6, frames |-> <<O, D(200), C, O, D(10), D(10), D(10), D(10)>>],
+    [rd |-> 0, name |-> "exact_fit",   fs |-> 128, buf |-> 512, cnt |-> 64, frames |-> <<O, D(512), D(1), D(128)>>],
+    [rd |-> 0, name |-> "one_big",     fs |-> 1000, buf |-> 4096, cnt |-> 8, frames |-> <<O>> \o Rep(D(60000), 2)],
     \* two streams share the semaphores: the bound is the connection's, whichever stream the data is addressed to
-    [name |-> "two_streams_size",  fs |-> 100, buf |-> 1000, cnt |-> 64, frames |-> <<O, On(O, 1)>> \o Alternate(Rep(D(300), 8), 0)],
-    [name |-> "two_streams_count", fs |-> 100, buf |-> 100000, cnt |-> 8, frames |-> <<O, On(O, 1)>> \o Alternate(Rep(D(50), 20), 1)],
-    [name |-> "second_stream_after_full", fs |-> 128, buf |-> 512, cnt |-> 64, frames |-> <<O, D(512), On(O, 1), On(D(64), 1)>>],
-    [name |-> "unopened_stream",   fs |-> 100, buf |-> 1000, cnt |-> 64, frames |-> <<O, D(400), On(D(400), 1), On(D(400), 1), D(100)>>] }
+    [rd |-> 0, name |-> "two_streams_size",  fs |-> 100, buf |-> 1000, cnt |-> 64, frames |-> <<O, On(O, 1)>> \o Alternate(Rep(D(300), 8), 0)],
+    [rd |-> 0, name |-> "two_streams_count", fs |-> 100, buf |-> 100000, cnt |-> 8, frames |-> <<O, On(O, 1)>> \o Alternate(Rep(D(50), 20), 1)],
+    [rd |-> 0, name |-> "second_stream_after_full", fs |-> 128, buf |-> 512, cnt |-> 64, frames |-> <<O, D(512), On(O, 1), On(D(64), 1)>>],
+    \* the application reads a few bytes of the first frame(s) and stalls: a partly read frame keeps its permits - nothing more is pulled than the bytes fully read free
+    [rd |-> 1,   name |-> "partial_read_one_byte",   fs |-> 100, buf |-> 400, cnt |-> 64, frames |-> <<O>> \o Rep(D(100), 10)],
+    [rd |-> 99,  name |-> "partial_read_almost_all", fs |-> 100, buf |-> 400, cnt |-> 64, frames |-> <<O>> \o Rep(D(100), 10)],
+    [rd |-> 150, name |-> "read_one_and_a_half",     fs |-> 100, buf |-> 400, cnt |-> 64, frames |-> <<O>> \o Rep(D(100), 10)],
+    [rd |-> 0, name |-> "unopened_stream",   fs |-> 100, buf |-> 1000, cnt |-> 64, frames |-> <<O, D(400), On(D(400), 1), On(D(400), 1), D(100)>>] }
 MCInit == InitWith(Scenarios)
 MCSpec == MCInit /\ [][BNext]_bvars /\ WF_bvars(Pull) /\ WF_bvars(Consume)
 AllPulled == <>Drained
 (* the state a flooding peer drives a non-reading application into: nothing more can be pulled and nothing was consumed *)
-Blocked == consumed = 0 /\ ~ENABLED Pull
-Report == Blocked => PrintT(<<"CASE", ToJson([name |-> sc.name, fs |-> sc.fs, buf |-> sc.buf, cnt |-> sc.cnt, frames |-> sc.frames,
+Blocked == ~ENABLED Pull /\ readB = sc.rd /\ consumed = sc.rd \div sc.fs       \* (the scenarios that read use frames of fs bytes)
+Report == Blocked => PrintT(<<"CASE", ToJson([rd |-> sc.rd, name |-> sc.name, fs |-> sc.fs, buf |-> sc.buf, cnt |-> sc.cnt, frames |-> sc.frames,
                                               wire |-> wire, payload |-> Payload, chunks |-> Count])>>)
 =============================================================================
